@@ -430,6 +430,8 @@ func (self *Fork) updateId(id ForkId) {
 	self.join_metadata = NewMetadata(self.fqname+".join",
 		path.Join(self.path, "join"))
 	self.join_metadata.journalPath = self.split_metadata.journalPath
+	// The cached list holds the metadata objects which were just replaced.
+	self.metadatasCache = nil
 	if self.Split() {
 		self.split_metadata.discoverUniquify()
 		self.join_metadata.finalFilePath = self.metadata.finalFilePath
